@@ -8,7 +8,8 @@ package rotate
 //@   requires[C10] caInv(live, durPrimary, durCerts)
 //@   assigns nothing
 //@   modifies pendCerts, durCerts, signerCalls, sigKey, sigDigest, lastSig
-//@   ensures[C10] err == nil ==> result != nil && pendCerts[req.SubjectKeyVersionName] && (immediate ==> durCerts[req.SubjectKeyVersionName])
+// (C11: every certificate issued for a key version is entered in the mutation that will record it)
+//@   ensures[C10,C11] err == nil ==> result != nil && pendCerts[req.SubjectKeyVersionName] && (immediate ==> durCerts[req.SubjectKeyVersionName])
 //@   ensures[C10] forall(x, string, (old(durCerts)[x] ==> durCerts[x]) && (x != req.SubjectKeyVersionName ==> durCerts[x] == old(durCerts)[x]))
 //@   ensures[C10] forall(x, string, x != req.SubjectKeyVersionName ==> pendCerts[x] == old(pendCerts)[x])
 //@   ensures[C10] err != nil ==> forall(x, string, pendCerts[x] == old(pendCerts)[x])
@@ -18,7 +19,9 @@ package rotate
 //@   modifies live, destroyed, durPrimary, durCerts, pendPrimary, pendPrimarySet, pendCerts, caCalls, caPrimary, signerCalls, sigKey, sigDigest, lastSig, bundleKeyArg, lastBundle, lastBundleOK
 //@   sweep[C10] nilinvoke nilcall
 //@   ensures[C10] caInv(live, durPrimary, durCerts)
-//@   ensures[C10] err == nil ==> durPrimary == result0 && live[result0] && durCerts[result0]
+// (C11: the primary is only ever recorded through a mutation that also carries - or follows - its certificate: the
+// Finalize precondition, tagged C10 and C11, is an obligation of this function's body)
+//@   ensures[C10,C11] err == nil ==> durPrimary == result0 && live[result0] && durCerts[result0]
 //@   ensures[C10] err == nil && old(durPrimary) != result0 && old(durPrimary) != "" ==> !live[old(durPrimary)] && destroyed[old(durPrimary)]
 //@   ensures[C10] forall(x, string, destroyed[x] && !old(destroyed)[x] ==> x != durPrimary && x == old(durPrimary))
 
